@@ -92,14 +92,18 @@ def sanitize_variable_name(
         aliases: The sanitized names already handed out (mapped back to the
             original names), so that different names never share an alias.
     """
+    aliases = {} if aliases is None else aliases
+
     # Python's parser NFKC-normalises identifiers, so only names that survive
     # that normalisation can be used as they are; keywords cannot be used as
-    # variable names at all.
+    # variable names at all, nor can a name that already serves as the alias of
+    # another name.
     if (
         template == "{}"
         and name.isidentifier()
         and not keyword.iskeyword(name)
         and unicodedata.normalize("NFKC", name) == name
+        and aliases.get(name, name) == name
     ):
         return name
 
@@ -114,7 +118,6 @@ def sanitize_variable_name(
     # Verify new name is not already in use for something else (in `env`, or
     # as the alias of a different name), and if it is add a numeric suffix
     # (deterministic, so that the sanitized code is reproducible).
-    aliases = {} if aliases is None else aliases
     new_name = template.format(base_name)
     suffix = 0
     while (
